@@ -1,0 +1,13 @@
+// Copyright IBM Corp. 2020, 2025
+// SPDX-License-Identifier: MPL-2.0
+
+//go:build !verif
+
+// Package verifhook provides schedule points for deterministic simulation
+// testing. Without the `verif` build tag every function is an empty, inlinable
+// no-op so shipped behaviour is unchanged.
+package verifhook
+
+// At marks a named schedule point. It does nothing unless built with the
+// `verif` tag.
+func At(point, key string) {}
